@@ -26,11 +26,13 @@ from concurrent.futures import ThreadPoolExecutor
 REPO = "/repo"
 HERE = os.path.dirname(os.path.abspath(__file__))
 SCRATCH = os.environ.get("VERIF_SCRATCH", "/var/tmp/verif-scratch")
+# per file: the engine runs that can see a defect there (VERIF_ANY=1 makes one
+# engine run report violations of every property it monitors)
 FILES = {
-    "numba_scfg/core/transformations.py": ["C01", "C04", "C06", "C12"],
-    "numba_scfg/core/datastructures/scfg.py": ["C01", "C04", "C06", "C12", "C14", "C15", "C18"],
-    "numba_scfg/core/datastructures/basic_block.py": ["C01", "C06", "C14", "C15"],
-    "numba_scfg/core/datastructures/ast_transforms.py": ["C07", "C08", "C12"],
+    "numba_scfg/core/transformations.py": ["C01", "C12"],
+    "numba_scfg/core/datastructures/scfg.py": ["C01", "C14", "C15", "C12"],
+    "numba_scfg/core/datastructures/basic_block.py": ["C01", "C14"],
+    "numba_scfg/core/datastructures/ast_transforms.py": ["C07", "C12"],
 }
 
 OPS = [
@@ -132,7 +134,7 @@ def phase2(m, batches):
     try:
         env = dict(os.environ, VERIF_REPO=work, VERIF_EVIDENCE_DIR=os.path.join(work, "_e"),
                    VERIF_REPLAY_DIR=os.path.join(work, "_r"), VERIF_BATCHES=str(batches), VERIF_MINIMISE_S="5",
-                   VERIF_MAX_GROUPS="1")
+                   VERIF_MAX_GROUPS="1", VERIF_ANY="1")
         for prop in m["checks"]:
             if prop == "C12":
                 env["VERIF_BATCHES"] = "8"
@@ -158,8 +160,9 @@ def main():
     ap.add_argument("--sample", type=int, default=0)
     ap.add_argument("--seed", type=int, default=1)
     ap.add_argument("--out", default=os.path.join(HERE, "selftest", "mutscan.jsonl"))
-    ap.add_argument("--phase2-batches", type=int, default=80)
+    ap.add_argument("--phase2-batches", type=int, default=48)
     ap.add_argument("--workers", type=int, default=12)
+    ap.add_argument("--phase2-parallel", type=int, default=3)
     a = ap.parse_args()
     os.makedirs(SCRATCH, exist_ok=True)
     os.makedirs(os.path.dirname(a.out), exist_ok=True)
@@ -182,8 +185,9 @@ def main():
         for m in muts:
             if m["phase1"] != "suite-passes":
                 f.write(json.dumps({k: m[k] for k in ("id", "file", "line", "op", "new", "phase1")}) + "\n")
-        for n, m in enumerate(surv):
-            r = phase2(m, a.phase2_batches)
+        with ThreadPoolExecutor(max_workers=a.phase2_parallel) as ex2:
+            r2 = list(ex2.map(lambda mm: phase2(mm, a.phase2_batches), surv))
+        for n, (m, r) in enumerate(zip(surv, r2)):
             m["phase2"] = r
             killed = any(v == 1 for v in r.values())
             m["status"] = "killed" if killed else "survived"
